@@ -552,6 +552,46 @@ def c13d(ctx, prog):
                 ctx.fail(o, Site(b, 0, 0), "sub_hash constructs a new hasher instead of copying the outer state")
 
 
+def c13a_prefix(ctx, prog):
+    """The framing rules (length before every repetition) rest on write_length_prefix actually writing something for EVERY
+    length.  If the empty length contributes no bytes, two adjacent variable-length fields are no longer delimited:
+    ("", "std") and ("std", "") feed the same stream - and two different query keys of one type share a QueryID."""
+    o = ctx.ob("C13.a", "write_length_prefix/writes-for-every-length", "K2", "every path through StableHasher::write_length_prefix (and every override) passes a write of the length")
+    bs = [b for b in prog.all_bodies(["qbice_stable_hash"]) if b.name.endswith("::write_length_prefix")]
+    o.sites = len(bs)
+    if not bs:
+        ctx.fail(o, "(program)", "anchor missing: StableHasher::write_length_prefix")
+        return
+    for b in bs:
+        ctx.touch(b)
+        w = b.calls_to(r"StableHasher::write_(usize|u64|u32|u128)$|StableHasher::write$")
+        if not w or b.must_pass([0], [x.bb for x in w]):
+            ctx.fail(o, Site(b, 0, 0), "%s can return without writing the length: an empty str / Vec / slice then contributes no bytes and two adjacent variable-length fields are "
+                     "ambiguous - (\"\", \"std\") and (\"std\", \"\") hash alike, two distinct query keys share an id" % b.name)
+        for x in w:
+            if not any(y.kind == "param" and str(y.info) == "_2" for y in df.origins_of_operand(b, x.node["args"][1])):
+                ctx.fail(o, x, "%s writes something other than the length it was given" % b.name)
+
+
+def c13f_path(ctx, prog, impls):
+    """D17.  Equality of `Path` is component-wise: "a/b" == "a//b" == "a/./b" == "a/b/".  Hashing the raw bytes of the whole
+    path gives equal values different hashes (two equal query keys become two queries, two equal interned paths two
+    allocations).  The hash has to range over what equality compares: the components, behind their count."""
+    o = ctx.ob("C13.f", "Path/hashes-the-components-equality-compares", "K3", "StableHash for Path iterates Path::components (length-prefixed) and never hashes the whole path's raw OsStr")
+    bs = [b for im, b in impls if im["self_ty"] == "std::path::Path"]
+    o.sites = len(bs)
+    if len(bs) != 1:
+        ctx.fail(o, "(program)", "anchor missing: StableHash for std::path::Path (found %d)" % len(bs))
+        return
+    b = ctx.touch(bs[0])
+    comp = b.calls_to(r"std::path::Path::components$")
+    whole = [s_ for s_ in b.calls_to(r"std::path::Path::(as_os_str|as_mut_os_str|to_str|to_string_lossy|display|as_encoded_bytes)$")
+             if any(x.kind == "param" for x in df.origins_of_operand(b, s_.node["args"][0]))]
+    if not comp or whole:
+        ctx.fail(o, (whole or [Site(b, 0, 0)])[0], "StableHash for Path hashes the raw representation of the whole path: paths that compare equal (\"a/b\", \"a//b\", \"a/./b\", \"a/b/\") "
+                 "hash differently - equal keys become different queries, equal interned paths are not shared")
+
+
 def run(ctx):
     prog = ctx.prog
     impls = hash_impls(prog)
@@ -561,10 +601,12 @@ def run(ctx):
         ctx.fail(o, "(program)", "expected >= 95 StableHash impls, found %d" % len(impls))
     ctx.run_clause("C13.a", lambda c: c13a(c, impls))
     ctx.run_clause("C13.a", lambda c: c13a_raw(c, prog))
+    ctx.run_clause("C13.a", lambda c: c13a_prefix(c, prog))
     ctx.run_clause("C13.b", lambda c: c13b(c, prog, impls))
     ctx.run_clause("C13.c", lambda c: c13c(c, prog, impls))
     ctx.run_clause("C13.d", lambda c: c13d(c, prog))
     ctx.run_clause("C13.d", lambda c: c13d_casts(c, prog, impls))
+    ctx.run_clause("C13.f", lambda c: c13f_path(c, prog, impls))
     ctx.run_clause("C13.e", c13e)
     ctx.run_clause("C13.e", lambda c: c13e_all_fields(c, prog, impls))
     ctx.run_clause("C13.e", lambda c: c13e_nonempty(c, prog, impls))
